@@ -84,7 +84,7 @@ class C24(core.Check):
                'filtered input file are not modelled (LOC there is only range-checked by the oracle)']
     PARTIAL = None
     RULE = ('scripts: well-formed round trips (WRITE#/INPUT#, PRINT#/LINE INPUT#, 1-3 OUTPUT/APPEND sessions, '
-            'EOF after every read, LOF/LOC probes, both soft_linefeed settings, string lengths dense at '
+            'EOF/LOF/LOC probes interleaved with the reads, both soft_linefeed settings, string lengths dense at '
             '0,1,254,255), arbitrary-byte strings with mixed reads past the end and wrong-mode operations, and raw '
             'byte files dense in separators read by INPUT#/LINE INPUT#. non-trivial = at least one successful read; '
             'distinct by hash of (case, output)')
@@ -110,6 +110,10 @@ class C24(core.Check):
                        ['n', '!', '2.5', '2.5'], ['n', '#', '1D+20', '1D+20']]),
             rt(True, [['s', [97, 10, 98]], ['s', [13]], ['s', [13, 97, 10]], ['s', [10]]]),
             rt(False, [['s', [97, 13, 98]], ['s', [13]]]),
+            # probes between the reads must not disturb them: WHILE NOT EOF(1): L=LOF(1): INPUT#1,A$ : WEND
+            rt(False, [['s', [97, 98, 99]], ['n', '%', '12', '12']], rp=['EOF', 'LOF']),
+            rt(True, [['s', [97, 98, 99]], ['n', '%', '12', '12']], rp=['EOF', 'LOC', 'LOF', 'EOF']),
+            self.mk_rtl(False, [[[97, 98], [], [99]]], rp=['EOF', 'LOF', 'EOF']),
             self.mk_rt(False, [[['s', [97]]], [['s', [98]], ['n', '%', '7', '7']]], appends=1),
             self.mk_rtl(True, [[[97, 10, 98], [], [0, 9, 34, 44]], [[99]]], appends=1),
             # outside the class: quotes, NUL, 1A, LF (default mode), leading CR LF (soft mode)
@@ -128,7 +132,28 @@ class C24(core.Check):
         ]
         return cs
 
-    def mk_rt(self, soft, sessions, appends=None, probes=True):
+    @staticmethod
+    def read_phase(reads, probes, rp):
+        """ops of the reading session: OPEN FOR INPUT, then probes (EOF/LOF/LOC) before the first and after every
+        read.  rp: None = EOF after everything (+ LOF, LOC at the end when probes); a list of probe names = the
+        same probes in every slot; a list of len(reads)+1 lists = the probes of each slot."""
+        n = len(reads)
+        if rp is None:
+            slots = [['EOF'] for _ in range(n + 1)]
+            if probes:
+                slots[-1] = ['EOF', 'LOF', 'LOC']
+        elif rp and isinstance(rp[0], list):
+            slots = [list(x) for x in rp]
+            assert len(slots) == n + 1
+        else:
+            slots = [list(rp) for _ in range(n + 1)]
+        ops = [['I']] + [[p] for p in slots[0]]
+        for rd, sl in zip(reads, slots[1:]):
+            ops.append(rd)
+            ops += [[p] for p in sl]
+        return ops + [['C'], ['DISK']]
+
+    def mk_rt(self, soft, sessions, appends=None, probes=True, rp=None):
         """sessions: list of list-of-statements; first is OUTPUT, the others APPEND."""
         if sessions and sessions[0] and not isinstance(sessions[0][0][0], list):
             sessions = [[st] for st in sessions]
@@ -142,19 +167,10 @@ class C24(core.Check):
             if probes:
                 ops.append(['LOC'])
             ops += [['C'], ['DISK']]
-        ops.append(['I'])
-        ops.append(['EOF'])
-        for sess in sessions:
-            for st in sess:
-                for it in st:
-                    ops.append(['IN', '$' if it[0] == 's' else it[1]])
-                    ops.append(['EOF'])
-        if probes:
-            ops += [['LOF'], ['LOC']]
-        ops += [['C'], ['DISK']]
-        return {'k': 'rt', 'soft': soft, 'ops': ops}
+        reads = [['IN', '$' if it[0] == 's' else it[1]] for sess in sessions for st in sess for it in st]
+        return {'k': 'rt', 'soft': soft, 'ops': ops + self.read_phase(reads, probes, rp)}
 
-    def mk_rtl(self, soft, sessions, appends=None, probes=True):
+    def mk_rtl(self, soft, sessions, appends=None, probes=True, rp=None):
         ops = []
         for i, sess in enumerate(sessions):
             ops.append(['O'] if i == 0 else ['A'])
@@ -163,14 +179,8 @@ class C24(core.Check):
             if probes:
                 ops += [['LOF'], ['LOC']]
             ops += [['C'], ['DISK']]
-        ops += [['I'], ['EOF']]
-        for sess in sessions:
-            for l in sess:
-                ops += [['LI'], ['EOF']]
-        if probes:
-            ops += [['LOF'], ['LOC']]
-        ops += [['C'], ['DISK']]
-        return {'k': 'rtl', 'soft': soft, 'ops': ops}
+        reads = [['LI'] for sess in sessions for l in sess]
+        return {'k': 'rtl', 'soft': soft, 'ops': ops + self.read_phase(reads, probes, rp)}
 
     # the documented classes, as Python predicates (255 bytes allowed: K3 / K24a are judged by the oracle)
     @staticmethod
@@ -198,8 +208,15 @@ class C24(core.Check):
                     sessions[-1].append(o[1])
                 elif o[0] == 'I':
                     break
-            probes = any(o[0] == 'LOF' for o in ops)
-            rebuilt = (self.mk_rt if rt else self.mk_rtl)(soft, sessions, probes=probes)
+            i0 = [i for i, o in enumerate(ops) if o[0] == 'I'][-1]
+            probes = any(o[0] in ('LOF', 'LOC') for o in ops[:i0])
+            rp = [[]]
+            for o in ops[i0 + 1:]:
+                if o[0] in ('EOF', 'LOF', 'LOC'):
+                    rp[-1].append(o[0])
+                elif o[0] in ('IN', 'LI'):
+                    rp.append([])
+            rebuilt = (self.mk_rt if rt else self.mk_rtl)(soft, sessions, probes=probes, rp=rp)
             if not sessions or rebuilt['ops'] != ops:
                 return None
             for sess in sessions:
@@ -214,8 +231,8 @@ class C24(core.Check):
                             return None
                     elif not self.line_in_class(soft, st):
                         return None
-            return sessions, probes
-        except (KeyError, IndexError, TypeError):
+            return sessions, probes, rp
+        except (KeyError, IndexError, TypeError, AssertionError):
             return None
 
     def shrink_candidates(self, case):
@@ -227,19 +244,27 @@ class C24(core.Check):
         parsed = self.parse_rt(case)
         if parsed is None:
             return
-        sessions, probes = parsed
+        sessions, probes, rp = parsed
         rt = case['k'] == 'rt'
         mk = self.mk_rt if rt else self.mk_rtl
+        # the same probes in every slot: the longest probe sequence of the original (None = EOF only)
+        uni = max(rp, key=len)
+        if uni == ['EOF'] or not uni:
+            uni = None
 
-        def emit(new_sessions, pr=probes):
+        def emit(new_sessions, pr=probes, u=uni):
             new_sessions = [x for i, x in enumerate(new_sessions) if x or i == 0]
-            c = mk(case['soft'], new_sessions, probes=pr)
+            c = mk(case['soft'], new_sessions, probes=pr, rp=u)
             if c['ops'] != case['ops'] and self.parse_rt(c) is not None:
                 return c
             return None
         cands = []
         if probes:
             cands.append(emit(sessions, False))
+        if uni is not None:
+            cands.append(emit(sessions, probes, None))
+            for k in range(len(uni)):
+                cands.append(emit(sessions, probes, uni[:k] + uni[k + 1:] or None))
         for i in range(len(sessions)):
             if len(sessions) > 1:
                 cands.append(emit(sessions[:i] + sessions[i + 1:]))
@@ -375,7 +400,7 @@ class C24(core.Check):
                                 st.append(self.g_number(rng))
                         sess.append(st)
                     sessions.append(sess)
-                c = self.mk_rt(soft, sessions, probes=rng.random() < 0.7)
+                c = self.mk_rt(soft, sessions, probes=rng.random() < 0.7, rp=self.g_rp(rng, sessions, True))
                 hist['append_sessions'] += nsess - 1
             elif r < 6:
                 nsess = rng.choice([1, 1, 2, 3])
@@ -384,18 +409,36 @@ class C24(core.Check):
                     sessions.append([self.g_ok_line(rng, soft, allow255=rng.random() < 0.5)
                                      for _ in range(rng.randrange(0 if sessions else 1, 5))])
                     hist['len255_items'] += sum(len(l) == 255 for l in sessions[-1])
-                c = self.mk_rtl(soft, sessions, probes=rng.random() < 0.7)
+                c = self.mk_rtl(soft, sessions, probes=rng.random() < 0.7, rp=self.g_rp(rng, sessions, False))
                 hist['append_sessions'] += nsess - 1
             elif r < 8:
                 c = self.g_any(rng, soft)
             else:
                 c = self.g_raw(rng, soft)
             hist[c['k']] += 1
+            if c['k'] in ('rt', 'rtl'):
+                i0 = [i for i, o in enumerate(c['ops']) if o[0] == 'I'][-1]
+                hist['probes_between_reads'] = hist.get('probes_between_reads', 0) + sum(
+                    o[0] in ('LOF', 'LOC') for o in c['ops'][i0:-4])
             hist['soft'] += soft
             hist['ops'] += len(c['ops'])
             out.append(c)
         self.histogram = hist
         return out
+
+    RP_POOL = [['EOF'], ['EOF'], ['EOF', 'LOF'], ['EOF', 'LOF', 'EOF'], ['EOF', 'LOC'], ['LOF'], ['LOC'], [],
+               ['EOF', 'LOC', 'LOF', 'EOF'], ['LOF', 'EOF'], ['EOF', 'EOF', 'LOF', 'LOF']]
+
+    def g_rp(self, rng, sessions, rt):
+        """probes between the reads: None (EOF only) for a third of the cases, else a random mix per slot, LOF / LOC
+        after an EOF() peek being the common pattern (WHILE NOT EOF(1): L=LOF(1): INPUT#1,... : WEND)"""
+        n = sum(len(st) if rt else 1 for sess in sessions for st in sess)
+        r = rng.random()
+        if r < 0.3:
+            return None
+        if r < 0.5:
+            return ['EOF', 'LOF']
+        return [list(rng.choice(self.RP_POOL)) for _ in range(n + 1)]
 
     def g_any(self, rng, soft):
         ops = []
@@ -757,17 +800,20 @@ class C24(core.Check):
                 written += [(it, 'W') for it in o[1]]
             elif o[0] == 'P':
                 written.append((o[1], 'P'))
-        reads = []
+        # the reading session: INPUT# / LINE INPUT# in any interleaving with EOF / LOF / LOC probes
         i0 = [i for i, o in enumerate(ops) if o[0] == 'I'][-1]
-        eof0 = log[i0 + 1]
-        if written and eof0.get('v') is not False:
-            dev.append(('eof', 'EOF is true before the first item'))
+        n = len(written)
         idx = 0
-        j = i0 + 2
-        while j < len(ops) and ops[j][0] in ('IN', 'LI'):
-            r, e = log[j], log[j + 1]
+        for j in range(i0 + 1, len(ops)):
+            k, r = ops[j][0], log[j]
+            if k == 'EOF':
+                if r.get('v') is not (idx == n):
+                    dev.append(('eof255' if any(self._is255(w) for w in written[:idx]) else 'eof',
+                                'EOF is %r after %d of %d items' % (r.get('v'), idx, n)))
+                continue
+            if k not in ('IN', 'LI') or idx >= n:
+                continue
             it, kind = written[idx]
-            last = idx == len(written) - 1
             # once a 255-byte item has been passed the reader is out of step with the writer (K3 / K24a)
             tag = 'after255' if any(self._is255(w) for w in written[:idx]) else 'rt'
             if kind == 'W':
@@ -787,11 +833,7 @@ class C24(core.Check):
                     dev.append((tag, 'line %d: LINE INPUT# failed with %r' % (idx, r['res'][:2])))
                 elif r['line'] != it:
                     dev.append((tag, 'line %d read back differs (got %d bytes)' % (idx, len(r['line']))))
-            if e.get('v') is not last:
-                dev.append(('eof255' if self._is255(written[idx]) else tag,
-                            'EOF is %r after item %d of %d' % (e.get('v'), idx + 1, len(written))))
             idx += 1
-            j += 2
         return dev
 
     @staticmethod
